@@ -34,7 +34,7 @@ func init() {
 		PropCheck: "C05AllCorr.prop_bad_ids",
 		Gen:       c05GenAll,
 		Run:       c05RunAll,
-		Rule:      "structured byte strings for the BLS private-key, public-key and signature decoders (valid encodings, all flag combinations, coordinates 0,1,p-1,p,p+1,2^381-1, non-residue x, on-curve points outside the subgroup, infinity with a stray byte at each position, single-bit flips, scalars 0,1,r-1,r,r+1,2^256-1, lengths 0..200); plus the ECDSA decoders of both curves: raw and X9.62-compressed public keys (valid, other root, off-curve, all 256 prefix bytes, x or y >= p, small x, lengths 0..70 incl. SEC1 uncompressed/hybrid forms given to the compressed decoder) and private keys (0, 1, n-1, n, n+1, leading zeros, lengths); scalars with zero low limbs (2^64, 2^128, 2^192, r +- 2^64), both F_p^2 halves out of range; DecodePublicKey and DecodePublicKeyCompressed called independently on every string (same verdict, error class, Equal keys); every signature string also taken through every place that parses a signature - AggregateBLSSignatures at the first / middle / last position, twice, after the identity; stateless reconstruction at each share position; TrustedAdd + ThresholdSignature (twice), VerifyShare, VerifyAndAdd, Verify, VerifyBLSSignatureOneMessage / ManyMessages, batch verification between two genuine signatures, SPOCKVerify(AgainstData), BLSVerifyPOP, VerifyThresholdSignature, IsBLSSignatureIdentity - which must accept exactly when the plain parser does, with errInvalidSignature / (false, nil) otherwise; objects produced by every constructor (generated, public key of a decoded / aggregated private key, aggregated, cancelling aggregate = identity, removed-from, removed-all, identity constant, threshold key shares and group key, Sign, PoP, SPoCK proof, aggregated and cancelling signatures, stateless and stateful threshold signature, BLSInvalidSignature) encode to bytes that decode to an Equal object and are then judged like any other string; cases dealt round-robin over the shards; non-trivial = any case whose length is the decoder's expected length; distinct by (decoder, bytes)",
+		Rule:      "structured byte strings for the BLS private-key, public-key and signature decoders (valid encodings, all flag combinations, coordinates 0,1,p-1,p,p+1,2^381-1, non-residue x, on-curve points outside the subgroup, infinity with a stray byte at each position, single-bit flips, scalars 0,1,r-1,r,r+1,2^256-1, lengths 0..200); plus the ECDSA decoders of both curves: raw and X9.62-compressed public keys (valid, other root, off-curve, all 256 prefix bytes, x or y >= p, small x, lengths 0..70 incl. SEC1 uncompressed/hybrid forms given to the compressed decoder) and private keys (0, 1, n-1, n, n+1, leading zeros, lengths); scalars with zero low limbs (2^64, 2^128, 2^192, r +- 2^64), both F_p^2 halves out of range; DecodePublicKey and DecodePublicKeyCompressed called independently on every string (same verdict, error class, Equal keys); every signature string also taken through every place that parses a signature - AggregateBLSSignatures at the first / middle / last position, twice, after the identity; stateless reconstruction at each share position; TrustedAdd + ThresholdSignature (twice), VerifyShare, VerifyAndAdd, Verify, VerifyBLSSignatureOneMessage / ManyMessages, batch verification between two genuine signatures, SPOCKVerify(AgainstData), BLSVerifyPOP, VerifyThresholdSignature, IsBLSSignatureIdentity - which must accept exactly when the plain parser does, with errInvalidSignature / (false, nil) otherwise; objects produced by every constructor (generated, public key of a decoded / aggregated private key, aggregated, cancelling aggregate = identity, removed-from, removed-all, identity constant, threshold key shares and group key, Sign, PoP, SPoCK proof, aggregated and cancelling signatures, stateless and stateful threshold signature, BLSInvalidSignature) encode to bytes that decode to an Equal object and are then judged like any other string; cases dealt round-robin over the shards; non-trivial = any case whose length is the decoder's expected length; distinct by (decoder, bytes); every decoder's input buffer is overwritten right after the call, before the decoded object is used",
 		Shard:     12,
 	})
 }
